@@ -29,6 +29,8 @@ HDRS = [
     (b'X-A', b'1', b'X-A: 1'), (b'X-AB', b'2', b'X-AB: 2'),        # 14, 15: one name is a prefix of the other
     (b'X-Look', b'Content-Length: 5', b'X-Look: Content-Length: 5'),  # 16: framing look-alike inside a value
     (b'Connection', b'Upgrade', b'Connection: Upgrade'), (b'Upgrade', b'websocket', b'Upgrade: websocket'),  # 17, 18: handshake
+    (b'Proxy-Trace-Id', b'abc123', b'Proxy-Trace-Id: abc123'), (b'proxy-segment', b'eu', b'proxy-segment: eu'),  # 19, 20: end-to-end
+    (b'X-Proxy-Authorization', b'keep', b'X-Proxy-Authorization: keep'),                                        # 21: look-alike
 ]
 BODIES = [b'', b'a', b'abc', b'\x00\xff\r\n', b'0\r\n\r\n', b'x' * 70]
 
@@ -41,7 +43,7 @@ def corpus(tier):
              [HDRS[0], HDRS[4], HDRS[5]], [HDRS[0], HDRS[8], HDRS[9], HDRS[10]],
              [HDRS[0], HDRS[1], HDRS[7], HDRS[6]],
              [HDRS[0], HDRS[11], HDRS[12], HDRS[16]], [HDRS[0], HDRS[14], HDRS[15], HDRS[13]],
-             [HDRS[0], HDRS[7], HDRS[17], HDRS[18]]]
+             [HDRS[0], HDRS[7], HDRS[17], HDRS[18]], [HDRS[0], HDRS[19], HDRS[20], HDRS[21], HDRS[7], HDRS[6]]]
     if thorough:
         hsets += [[HDRS[0]] + list(c) for c in itertools.combinations(HDRS[1:], 2)][::6]
     for mi, m in enumerate(METHODS):
